@@ -163,6 +163,21 @@ pub fn build_fresh<T: Send + 'static>(
     let world = Rc::new(world);
     let plan = Rc::new(plan);
     let mut session = Session::new(&world, &sem);
+    if !sem.prelude_roots.is_empty() {
+      let (_, _) = run_op(
+        &mut session,
+        &world,
+        &Rc::new(FaultPlan::default()),
+        &sem,
+        &SchedOpts::default(),
+        Operation::Build {
+          roots: sem.prelude_roots.clone(),
+          imports: vec![],
+        },
+        Tape::replay(Default::default()),
+        false,
+      );
+    }
     let op = Operation::Build {
       roots: world.roots.clone(),
       imports: world.imports.clone(),
